@@ -445,7 +445,15 @@ func Gen(r *verifh.Rng, nsec int, via string) []verifh.Section {
 		procs := r.Pick(1, 2, 4, 8, 0)
 		// style of the run: many tiny calls (a new call meets the completion of the previous flight),
 		// long functions (many joiners), mixed
-		style := r.Intn(4)
+		// long functions (many joiners), mixed, herd (one key, no delays at all, all cores: calls collide with the
+		// first and last statements of a flight)
+		style := r.Intn(5)
+		if style == 4 {
+			k, procs = 1, r.Pick(0, 0, 8, 4)
+			if g < 6 {
+				g = r.Range(6, 12)
+			}
+		}
 		holdSec := r.Chance(1, 6) && k >= 2
 		// some user functions panic (sf, lc): the deferred cleanup must still free the key and wake the waiters
 		panicSec := mode != "rm" && r.Chance(1, 4)
@@ -484,6 +492,8 @@ func Gen(r *verifh.Rng, nsec int, via string) []verifh.Section {
 					pre, yield = r.Intn(3), r.Range(3, 30)
 				case 2:
 					pre, yield = r.Intn(40), r.Intn(4)
+				case 4:
+					pre, yield = 0, 0
 				default:
 					pre, yield = r.Pick(0, 0, 1, 5, 20), r.Pick(0, 0, 1, 3, 10, 50)
 				}
@@ -524,6 +534,9 @@ func Gen(r *verifh.Rng, nsec int, via string) []verifh.Section {
 				sfd = strings.Join(ds, ",")
 			}
 			cfg += " sfd=" + sfd
+		}
+		if style == 4 {
+			cfg += " herd=1"
 		}
 		secs = append(secs, verifh.Section{Cfg: cfg, Ops: ops})
 	}
